@@ -423,12 +423,19 @@ func (i *interpreter) hashBytes(kind string, bs []value, real bool) value {
 		}
 	}
 	out := make(array, 32)
-	if concrete && real {
+	if concrete {
 		buf := make([]byte, len(bs))
 		for k, b := range bs {
 			buf[k] = b.(uint8)
 		}
-		h := realHash(kind, buf)
+		var h []byte
+		if real {
+			h = realHash(kind, buf)
+		} else {
+			// idealised functions on concrete inputs: a fixed pseudo-random
+			// value (domain-separated real hash), so that concrete worlds stay concrete
+			h = realHash("blake2b", append([]byte("gosx/"+kind+"/"), buf...))
+		}
 		for k := range out {
 			out[k] = h[k]
 		}
